@@ -1499,4 +1499,283 @@ theorem conversion_after_named_call (toInt? : K → Option Int) (tab : List Unit
     (reset_call_chosen_units_one tab htab a hseed hne h4 hover hch r hr sc0 seedSc).2.2.1 x
 end
 
+/-! # statement audit: direct instantiations
+
+Every theorem above that has hypotheses is applied here to concrete, non-trivial arguments with every hypothesis
+discharged (K = ℚ and the regenerated tables; ℝ where a square root or a lawful power function is needed), so that
+no statement can hold because its hypotheses cannot be met. -/
+
+section audit
+open Atomman.Gen
+
+theorem audit_renders : Renders (.div (.mul (.name ['k', 'g']) (.name ['m'])) (.pow (.name ['s']) (.num ['-', '2'])))
+    2 " kg*(m)/s^-2".toList := by
+  have hk : validName ['k', 'g'] := validName_of_b (by decide)
+  have hm : validName ['m'] := validName_of_b (by decide)
+  have hs : validName ['s'] := validName_of_b (by decide)
+  have h2 : validNum ['-', '2'] := ⟨'-', ['2'], rfl, by decide, by simp [noStop, isStop], by simp [noParen]⟩
+  exact Renders.div
+    (Renders.mul (Renders.wsL ' ' (by decide) (Renders.up (Renders.up (Renders.name _ hk))))
+      (Renders.up (Renders.paren (Renders.name _ hm))))
+    (Renders.pow (Renders.up (Renders.name _ hs)) (Renders.num _ h2))
+
+theorem audit_leaves : LeavesOK (.div (.name ['k', 'g']) (.pow (.name ['s']) (.num ['-', '2']))) :=
+  ⟨validName_of_b (by decide), validName_of_b (by decide), ⟨'-', ['2'], rfl, by decide, by simp [noStop, isStop], by simp [noParen]⟩⟩
+
+theorem audit_ws : allWs [' ', '\t', '\n', '\r'] := by
+  intro c hc; simp at hc; rcases hc with rfl | rfl | rfl | rfl <;> decide
+
+theorem ratToInt_sound (x : Rat) (n : Int) (h : ratToInt? x = some n) : x = (n : Rat) := by
+  unfold ratToInt? at h
+  split at h
+  · rename_i hd
+    cases h
+    exact ((Rat.den_eq_one_iff x).mp hd).symm
+  · cases h
+
+def auditSc : Scales Rat := ⟨3, 1 / 7, 11, 5 / 2, 1⟩
+theorem auditSc_nonzero : auditSc.Nonzero := by
+  refine ⟨?_, ?_, ?_, ?_, ?_⟩ <;> norm_num [auditSc]
+
+-- precedence: hand parser and regenerated parser on a rendering with blanks, a redundant parenthesis, a negative exponent
+example : parse (numAlg ratToInt?) (envSI (K := Rat) unitTable) " kg*(m)/s^-2".toList
+    = evalAst (numAlg ratToInt?) (envSI (K := Rat) unitTable)
+        (.div (.mul (.name ['k', 'g']) (.name ['m'])) (.pow (.name ['s']) (.num ['-', '2']))) :=
+  parse_precedence _ _ _ 2 _ audit_renders
+example : UC.parse (numAlg ratToInt?) (envSI (K := Rat) unitTable) " kg*(m)/s^-2".toList
+    = evalAst (numAlg ratToInt?) (envSI (K := Rat) unitTable)
+        (.div (.mul (.name ['k', 'g']) (.name ['m'])) (.pow (.name ['s']) (.num ['-', '2']))) :=
+  gen_parse_precedence _ _ _ 2 _ audit_renders
+example : parse (numAlg ratToInt?) (envSI (K := Rat) unitTable)
+      (render [' ', '\t', '\n', '\r'] 1 (.div (.name ['k', 'g']) (.pow (.name ['s']) (.num ['-', '2']))))
+    = evalAst (numAlg ratToInt?) (envSI (K := Rat) unitTable) (.div (.name ['k', 'g']) (.pow (.name ['s']) (.num ['-', '2']))) :=
+  parse_render_precedence _ _ _ audit_ws _ audit_leaves 1
+example : parse (numAlg ratToInt?) (envSI (K := Rat) unitTable) "angstrom".toList
+    = envSI (K := Rat) unitTable "angstrom".toList :=
+  parse_name _ _ _ (validName_of_b (by decide))
+
+-- round trips with a non-zero factor, real and complex, model and regenerated glue
+example : getInUnits (setInUnits [(1 : Rat), -2, 1 / 3] (7 / 3)) (7 / 3) = [1, -2, 1 / 3] :=
+  set_get_inverse _ _ (by norm_num)
+example : setInUnits (getInUnits [(1 : Rat), -2, 1 / 3] (7 / 3)) (7 / 3) = [1, -2, 1 / 3] :=
+  get_set_inverse _ _ (by norm_num)
+example : (parseUnits (numAlg ratToInt?) (envSI (K := Rat) unitTable) (some "km".toList)).map
+    (getInUnits (setInUnits [(1 : Rat), -2, 1 / 3] 1000)) = some [1, -2, 1 / 3] :=
+  set_get_inverse_parse ratToInt? _ _ 1000 (by decide +kernel) (by norm_num) _
+example : (UC.parseUnits (numAlg ratToInt?) (envSI (K := Rat) unitTable) (some "km".toList)).map
+    (fun g => UC.getInUnits (UC.setInUnits [(1 : Rat), -2, 1 / 3] g) g) = some [1, -2, 1 / 3] :=
+  gen_set_get_inverse ratToInt? _ _ 1000 (by decide +kernel) (by norm_num) _
+example : getInUnitsC [((1 : Rat), 2), (0, -1 / 2)] (7 / 3) = [(1 / (7 / 3), 2 / (7 / 3)), (0 / (7 / 3), (-1 / 2) / (7 / 3))] :=
+  get_in_units_complex_parts _ _ (by norm_num)
+example : getInUnitsC (setInUnitsC [((1 : Rat), 2), (0, -1 / 2)] (7 / 3)) (7 / 3) = [(1, 2), (0, -1 / 2)] :=
+  set_get_inverse_complex _ _ (by norm_num)
+
+-- dimension homomorphism / working-unit independence on the regenerated table, scalings (3, 1/7, 11, 5/2, 1)
+example : parse (numAlg ratToInt?) (envOf unitTable auditSc) "kg*m/s^2".toList
+    = some (1 * factor auditSc ⟨1, 1, -2, 0, 0⟩) :=
+  eval_dimension_hom ratToInt? unitTable auditSc auditSc_nonzero _ 1 _ (by decide +kernel)
+example : evalAst (numAlg ratToInt?) (envOf unitTable auditSc)
+      (.div (.mul (.name ['k', 'g']) (.name ['m'])) (.pow (.name ['s']) (.num ['2'])))
+    = some (1 * factor auditSc ⟨1, 1, -2, 0, 0⟩) :=
+  eval_dimension_hom_ast ratToInt? unitTable auditSc auditSc_nonzero _ 1 _ (by decide +kernel)
+example : ∃ f1 f2, parse (numAlg ratToInt?) (envOf unitTable auditSc) "kg*km/s^2".toList = some f1
+      ∧ parse (numAlg ratToInt?) (envOf unitTable auditSc) "N".toList = some f2 ∧ f2 ≠ 0
+      ∧ getInUnits (setInUnits [(2 : Rat), -3] f1) f2 = [(2 : Rat), -3].map (fun t => t * 1000 / 1) :=
+  same_dim_ratio_invariant ratToInt? unitTable _ _ 1000 1 ⟨1, 1, -2, 0, 0⟩ (by decide +kernel) (by decide +kernel)
+    (by norm_num) auditSc auditSc_nonzero _
+example : ∃ f1 f2, UC.parse (numAlg ratToInt?) (envOf unitTable auditSc) "kg*km/s^2".toList = some f1
+      ∧ UC.parse (numAlg ratToInt?) (envOf unitTable auditSc) "N".toList = some f2 ∧ f2 ≠ 0
+      ∧ UC.getInUnits (UC.setInUnits [(2 : Rat), -3] f1) f2 = [(2 : Rat), -3].map (fun t => t * 1000 / 1) :=
+  gen_same_dim_ratio_invariant ratToInt? unitTable _ _ 1000 1 ⟨1, 1, -2, 0, 0⟩ (by decide +kernel) (by decide +kernel)
+    (by norm_num) auditSc auditSc_nonzero _
+example : (⟨1, 1, -2, 0, 0⟩ : D5) = (⟨none, ⟨1, 1, -2, 0, 0⟩⟩ : DimVal).dim :=
+  dim_analysis_sound (K := Rat) ratToInt? ratToInt_sound unitTable "N".toList ⟨none, ⟨1, 1, -2, 0, 0⟩⟩ 1 _
+    (by decide +kernel) (by decide +kernel)
+
+-- a style-table entry (metal: force = eV/angstrom): it has a tracked value, and scales like a force
+example : (parse (trackAlg ratToInt?) (envTracked (K := Rat) unitTable) "eV/angstrom".toList).isSome = true := by
+  decide +kernel
+example (v : Rat) (d : D5) (hv : parse (trackAlg ratToInt?) (envTracked (K := Rat) unitTable) "eV/angstrom".toList = some (v, d)) :
+    parse (numAlg ratToInt?) (envOf unitTable auditSc) "eV/angstrom".toList = some (v * factor auditSc ⟨1, 1, -2, 0, 0⟩) :=
+  style_entry_scaling ratToInt? ratToInt_sound styleTables[2] (List.getElem_mem (l := styleTables) (by decide)) "force" _ (by decide +kernel)
+    ⟨1, 1, -2, 0, 0⟩ (by decide +kernel) v d hv auditSc auditSc_nonzero
+
+-- reset_units by name with a square root that exists in ℚ: length m, mass kg, energy J (time = √(1·1²/1) = 1)
+theorem audit_hr : ∀ x : Rat, radicand (envSI (K := Rat) unitTable) ⟨some "m".toList, some "kg".toList, none, some "J".toList, none⟩
+    = some x → (1 : Rat) * 1 = x := by
+  intro x hx
+  rw [show radicand (envSI (K := Rat) unitTable) ⟨some "m".toList, some "kg".toList, none, some "J".toList, none⟩
+    = some (1 * 1) from by decide +kernel] at hx
+  cases hx; rfl
+example : ∃ sc : Scales Rat, resetScales (envSI (K := Rat) unitTable)
+      ⟨some "m".toList, some "kg".toList, none, some "J".toList, none⟩ 1 = some sc ∧ sc.Nonzero ∧
+      ∀ k n, (⟨some "m".toList, some "kg".toList, none, some "J".toList, none⟩ : Choice).get k = some n →
+        envOf unitTable sc n = some 1 :=
+  reset_named_units_are_one (K := Rat) unitTable unit_table_ok _ (by decide) (by decide) (choiceOK_of_b (by decide +kernel)) 1
+    audit_hr
+example : ∃ sc : Scales Rat, resetScales (envSI (K := Rat) unitTable)
+      ⟨some "m".toList, some "kg".toList, none, some "J".toList, none⟩ 1 = some sc ∧ sc.Nonzero ∧
+      ∀ k n, (⟨some "m".toList, some "kg".toList, none, some "J".toList, none⟩ : Choice).get k = some n → validName n →
+        parse (numAlg ratToInt?) (envOf unitTable sc) n = some 1 :=
+  reset_named_units_parse_one (K := Rat) ratToInt? unitTable unit_table_ok _ (by decide) (by decide)
+    (choiceOK_of_b (by decide +kernel)) 1 audit_hr
+example : resetScales (envSI (K := Rat) unitTable) ⟨some ['m'], some ['k', 'g'], some ['s'], some ['J'], some ['C']⟩ 0 = none :=
+  reset_refuses_five _ _ _ (by decide)
+example : resetScales (envSI (K := Rat) unitTable) ⟨some "km".toList, some ['g'], some "ms".toList, some "eV".toList, none⟩ 0
+    = resetScales (envSI (K := Rat) unitTable) ⟨some "km".toList, some ['g'], some "ms".toList, none, none⟩ 0 :=
+  reset_over_determined_ignores_energy _ _ _ (by decide) (by decide) (by decide +kernel)
+
+-- sessions: history [parse C, rebase] then reset_units(length='km'), then reads
+def auditHist : List (Call Rat) := [.parse (some "C".toList), .rebase auditSc]
+def auditReads : List (Call Rat) := [.parse (some "km".toList), .unit "km".toList, .convert [1, 2] (some ['m']) (some "km".toList)]
+theorem auditReads_isRead : ∀ c ∈ auditReads, c.isRead = true := by decide
+theorem audit_km : resetScales (envSI (K := Rat) unitTable) ⟨some "km".toList, none, none, none, none⟩ 0
+    = some ⟨1 / 1000, 1, 1, 1, 1⟩ := by decide +kernel
+example : finalScales unitTable siScales (auditHist ++ Call.reset ⟨some "km".toList, none, none, none, none⟩ 0 :: auditReads)
+    = ⟨1 / 1000, 1, 1, 1, 1⟩ :=
+  session_state_after_reset unitTable _ _ _ 0 _ (by decide) audit_km _ auditReads_isRead
+example : finalScales unitTable siScales (auditHist ++ Call.rebase ⟨2, 3, 5, 7, 1⟩ :: auditReads) = ⟨2, 3, 5, 7, 1⟩ :=
+  session_state_after_rebase unitTable _ _ _ _ auditReads_isRead
+example : finalScales unitTable siScales (auditHist ++ [Call.reset ⟨some "nounit".toList, none, none, none, none⟩ 0])
+    = if 4 < (⟨some "nounit".toList, none, none, none, none⟩ : Choice).count then finalScales unitTable siScales auditHist
+      else siScales :=
+  session_state_after_failed_reset unitTable _ _ _ 0 (by decide +kernel)
+example :
+    (Call.unit "km".toList).reply (numAlg ratToInt?) unitTable
+      (finalScales unitTable siScales (auditHist ++ Call.reset ⟨some "km".toList, none, none, none, none⟩ 0 :: auditReads)) = some [1]
+    ∧ (Call.parse (some "km".toList)).reply (numAlg ratToInt?) unitTable
+      (finalScales unitTable siScales (auditHist ++ Call.reset ⟨some "km".toList, none, none, none, none⟩ 0 :: auditReads)) = some [1] :=
+  session_chosen_units_one (K := Rat) ratToInt? unitTable unit_table_ok _ (by decide) (by decide)
+    (choiceOK_of_b (by decide +kernel)) 0 (by intro x hx; rw [radicand_mass_none _ _ rfl] at hx; cases hx)
+    siScales auditHist auditReads auditReads_isRead .length _ rfl (validName_of_b (by decide))
+theorem auditHist_final : finalScales unitTable (siScales (K := Rat)) auditHist = auditSc := by decide +kernel
+example : (Call.convert [(2 : Rat), -3] (some "kg*km/s^2".toList) (some "N".toList)).reply (numAlg ratToInt?) unitTable
+      (finalScales unitTable siScales auditHist) = some ([(2 : Rat), -3].map fun t => t * 1000 / 1) :=
+  session_conversion_invariant ratToInt? unitTable _ _ 1000 1 ⟨1, 1, -2, 0, 0⟩ (by decide +kernel) (by decide +kernel)
+    (by norm_num) (by decide) (by decide) siScales auditHist (by rw [auditHist_final]; exact auditSc_nonzero) _
+
+-- the rational-exponent algebras extend the integer ones (any stand-in for rpow: it is never reached)
+example : parse (numAlgR (fun q : Rat => some q) (fun x _ => x)) (envSI (K := Rat) unitTable) "km*km".toList = some 1000000 :=
+  parse_rpow_extends (rpow := fun x _ => x) ratToInt? (fun q => some q)
+    (fun x n h => by rw [ratToInt_sound x n h]) _ _ _ (by decide +kernel)
+example : parse (trackAlgR (fun q : Rat => some q) (fun x _ => x)) (envTrackedQ (K := Rat) unitTable) "kg*m/s^2".toList
+    = some (1, (⟨1, 1, -2, 0, 0⟩ : D5).toQ) :=
+  track_rpow_extends (rpow := fun x _ => x) ratToInt? (fun q => some q)
+    (fun x n h => by rw [ratToInt_sound x n h]) unitTable _ _ _ (by decide +kernel)
+example : (parseUnits (numAlgR (fun q : Rat => some q) (fun x _ => x)) (envSI (K := Rat) unitTable) (some "km".toList)).map
+    (getInUnits (setInUnits [(1 : Rat), -2, 1 / 3] 1000)) = some [1, -2, 1 / 3] :=
+  set_get_inverse_parse_rpow (rpow := fun x _ => x) (fun q => some q) _ _ 1000 (by decide +kernel) (by norm_num) _
+example : (⟨-1 / 2, 1, -2, 0, 0⟩ : Q5) = (⟨none, ⟨-1 / 2, 1, -2, 0, 0⟩⟩ : QDimVal).dim :=
+  dim_analysis_sound_rpow (F := Rat) (rpow := fun x _ => x) (fun q => some q) (fun x q h => by cases h; simp) unitTable
+    "MPa*m^(1/2)".toList ⟨none, ⟨-1 / 2, 1, -2, 0, 0⟩⟩ 1000000 _ (by decide +kernel) (by decide +kernel)
+
+-- the laws of rpow are those of the real power function; the driver's exact power agrees with it
+theorem realRpowLaws : RpowLaws (fun (x : ℝ) (q : Rat) => x ^ (q : ℝ)) where
+  add x hx a b := by simp only [Rat.cast_add]; exact Real.rpow_add hx _ _
+  mul x y hx hy a := Real.mul_rpow hx.le hy.le
+  one x hx := by simp
+example : ((2 : ℝ) ^ (((1 / 2 : Rat)) : ℝ)) ^ (((2 : Rat)) : ℝ) = (2 : ℝ) ^ (((1 / 2 * 2 : Rat)) : ℝ) :=
+  rpow_rpow realRpowLaws (x := (2 : ℝ)) (by norm_num) (1 / 2) 2
+example : (0 : Rat) < (ratRpowE 4 (1 / 2)).1 ∧ (ratRpowE 4 (1 / 2)).1 ^ (1 / 2 : Rat).den = 4 ^ (1 / 2 : Rat).num :=
+  ratRpowE_exact 4 (1 / 2) (by norm_num) (by decide +kernel)
+example : (((4 : Rat) : ℝ)) ^ (((1 / 2 : Rat)) : ℝ) = (((ratRpowE 4 (1 / 2)).1 : Rat) : ℝ) :=
+  rpow_agrees_with_driver (F := ℝ) realRpowLaws 4 (1 / 2) (by norm_num) (by decide +kernel)
+
+-- the entry point: accepted and refused calls
+example :=
+  reset_path_named ⟨false, [("length", "nm".toList), ("lenght", "nm".toList)]⟩ ⟨some "nm".toList, none, none, none, none⟩ (by decide)
+example : resetCall unitTable auditSc ⟨true, [("length", "nm".toList)]⟩ ⟨2, 3, 5, 7, 1⟩ 0 = auditSc :=
+  reset_call_refused_keeps_state _ _ _ _ _ ⟨by decide, Or.inl rfl⟩
+def auditArgs : ResetArgs := ⟨false, [("length", "m".toList), ("mass", "kg".toList), ("energy", "J".toList), ("lenght", "nm".toList)]⟩
+theorem audit_hr_call : ∀ x : Rat, UC.radicand (envSI (K := Rat) unitTable) (UC.choiceOf auditArgs.kw) = some x → (1 : Rat) * 1 = x := by
+  intro x hx
+  rw [show UC.radicand (envSI (K := Rat) unitTable) (UC.choiceOf auditArgs.kw) = some (1 * 1) from by decide +kernel] at hx
+  cases hx; rfl
+example := reset_call_chosen_units_one (K := Rat) unitTable unit_table_ok auditArgs rfl (by decide) (by decide) (by decide)
+  (choiceOK_of_b (by decide +kernel)) 1 audit_hr_call auditSc ⟨2, 3, 5, 7, 1⟩
+example := conversion_after_named_call (K := Rat) ratToInt? unitTable unit_table_ok auditArgs rfl (by decide) (by decide) (by decide)
+  (choiceOK_of_b (by decide +kernel)) 1 audit_hr_call auditSc ⟨2, 3, 5, 7, 1⟩ "kg*km/s^2".toList "N".toList 1000 1
+  ⟨1, 1, -2, 0, 0⟩ (by decide +kernel) (by decide +kernel) (by norm_num) [2, -3]
+
+-- the data model: a 2 x 2 array in km
+example : (ucModel (numAlg ratToInt?) (envSI (K := Rat) unitTable) ⟨[2, 2], [1, 2, 3, 4]⟩ (some "km".toList)).bind
+    (valueUnit (numAlg ratToInt?) (envSI (K := Rat) unitTable)) = some ⟨[2, 2], [1, 2, 3, 4]⟩ :=
+  value_unit_model_inverse _ _ _ (by simp [Arr.wf]) _ (fun s hs => by cases hs; exact ⟨1000, by decide +kernel, by norm_num⟩)
+example : (ucModel (numAlg ratToInt?) (envSI (K := Rat) unitTable) ⟨[2, 2], [1, 2, 3, 4]⟩ (some "km".toList)).isSome = true := by
+  decide +kernel
+example (t : UCModel Rat) (h : ucModel (numAlg ratToInt?) (envSI (K := Rat) unitTable) ⟨[2, 2], [1, 2, 3, 4]⟩ (some "km".toList) = some t) :=
+  uc_model_keys _ _ ⟨[2, 2], [1, 2, 3, 4]⟩ _ t h
+
+/-! the default configuration needs a square root that ℚ does not have (time = √(amu·Å²/eV)): the hypothesis of
+    `default_units_are_one` is met over ℝ, where the quantity under the root is positive. -/
+section realroot
+variable {F : Type} [Field F] [LinearOrder F] [IsStrictOrderedRing F] [DecidableEq F]
+
+theorem baseScale_pos (si : List Char → Option F) (hsi : ∀ n v, si n = some v → 0 < v) (b : List Char)
+    (o : Option (List Char)) (y : F) (h : baseScale si b o = some y) : 0 < y := by
+  cases o with
+  | none => simp [baseScale] at h; rw [← h]; exact one_pos
+  | some n =>
+    simp only [baseScale] at h
+    cases hb : si b with
+    | none => simp [hb] at h
+    | some bv =>
+      cases hn : si n with
+      | none => simp [hb, hn] at h
+      | some v =>
+        simp only [hb, hn] at h
+        split at h
+        · cases h
+        · cases h; exact div_pos (hsi _ _ hb) (hsi _ _ hn)
+
+/-- the quantity under the square root of `reset_units` is positive whenever the table values are. -/
+theorem radicand_pos (si : List Char → Option F) (hsi : ∀ n v, si n = some v → 0 < v) (ch : Choice) (x : F)
+    (h : radicand si ch = some x) : 0 < x := by
+  unfold radicand at h
+  split at h
+  · cases h
+  · split at h
+    · rename_i m kg s j hm hkg hs hj
+      have pm := baseScale_pos si hsi _ _ _ hm
+      have pkg := baseScale_pos si hsi _ _ _ hkg
+      have ps := baseScale_pos si hsi _ _ _ hs
+      have pj := baseScale_pos si hsi _ _ _ hj
+      split at h
+      · cases h
+      · split at h
+        · cases h; positivity
+        · split at h
+          · cases h; positivity
+          · cases h
+    · cases h
+
+theorem envSI_pos {tab : List UnitEntry} (htab : tableOK tab = true) (n : List Char) (v : F)
+    (h : envSI (K := F) tab n = some v) : 0 < v := by
+  simp only [envSI, Option.map_eq_some_iff] at h
+  obtain ⟨e, he, rfl⟩ := h
+  obtain ⟨h1, h2⟩ := (tableFacts htab).pos e (lookup_mem he)
+  simp only [UnitEntry.si]
+  exact div_pos (Int.cast_pos.mpr (by omega)) (Nat.cast_pos.mpr (by omega))
+end realroot
+
+/-- the square-root hypothesis of `reset_named_units_are_one` / `default_units_are_one` can be met over ℝ for every
+    choice. -/
+theorem real_root_exists (ch : Choice) :
+    ∃ r : ℝ, ∀ x, radicand (envSI (K := ℝ) unitTable) ch = some x → r * r = x := by
+  cases h : radicand (envSI (K := ℝ) unitTable) ch with
+  | none => exact ⟨0, by intro x hx; cases hx⟩
+  | some x0 =>
+    have hp := radicand_pos _ (envSI_pos unit_table_ok) ch x0 h
+    exact ⟨Real.sqrt x0, by intro x hx; cases hx; exact Real.mul_self_sqrt hp.le⟩
+
+noncomputable example : ∃ r : ℝ, ∀ (sc0 seedSc : Scales ℝ),
+    UC.resetPath ⟨UC.defaultSeedGiven, UC.defaultKw⟩ = .named (UC.choiceOf UC.defaultKw) ∧
+    (resetCall unitTable sc0 ⟨UC.defaultSeedGiven, UC.defaultKw⟩ seedSc r).Nonzero ∧
+    ∀ k n, (UC.choiceOf UC.defaultKw).get k = some n →
+      envOf unitTable (resetCall unitTable sc0 ⟨UC.defaultSeedGiven, UC.defaultKw⟩ seedSc r) n = some 1 := by
+  obtain ⟨r, hr⟩ := real_root_exists (UC.choiceOf UC.defaultKw)
+  exact ⟨r, fun sc0 seedSc => default_units_are_one (K := ℝ) r (by rw [gen_radicand_eq_model]; exact hr) sc0 seedSc⟩
+
+end audit
+
 end Atomman.C09
